@@ -115,10 +115,12 @@ def xrefStreamContent (secs : List (Nat × List (Nat × Nat))) : Bytes :=
 def xrefStreamIndex (secs : List (Nat × List (Nat × Nat))) : Obj :=
   .arr (secs.map fun (s, es) => [Obj.int s, Obj.int es.length]).flatten
 
-/-- `Document::save_to`: `none` when the binary mark is invalid (the only error the writer raises itself) -/
-def saveDoc (d : Doc) : Option (Bytes × Doc) :=
+/-- `save_internal` after `pre` bytes have already been written (`pre = []` for a plain save,
+the previous revisions for an incremental one): `none` when the binary mark is invalid (the
+only error the writer raises itself) -/
+def saveFrom (pre : Bytes) (d : Doc) : Option (Bytes × Doc) :=
   if !(d.binaryMark.all fun b => b ≥ 128) then none else
-  let header := PDF_KW ++ d.version ++ [10] ++ [37] ++ d.binaryMark ++ [10]
+  let header := pre ++ PDF_KW ++ d.version ++ [10] ++ [37] ++ d.binaryMark ++ [10]
   let (body, x) := writeObjects d.objects header []
   let xrefStart := body.length
   match d.xrefKind with
@@ -141,5 +143,13 @@ def saveDoc (d : Doc) : Option (Bytes × Doc) :=
     let out := body ++ writeIndirect newId 0 (.stream tr6 content)
       ++ STARTXREF_KW ++ natDigits xrefStart ++ EOF_KW
     some (out, { d with trailer := tr6, maxId := newId })
+
+/-- `Document::save_to` -/
+def saveDoc (d : Doc) : Option (Bytes × Doc) := saveFrom [] d
+
+/-- `IncrementalDocument::save_to`: the previously loaded bytes unchanged, a newline if they do
+not end with one, then the new revision (`d` = `new_document`, whose trailer carries `Prev`) -/
+def saveIncr (prev : Bytes) (d : Doc) : Option (Bytes × Doc) :=
+  saveFrom (prev ++ (match prev.getLast? with | none => [] | some b => if b = 10 then [] else [10])) d
 
 end Lopdf
